@@ -169,3 +169,18 @@ def value_to_spec(v):
     if v.variant == 'Sentence':
         p, t, st, tr = sent(v.f[0]); return ('Sentence', p, t, st, tr)
     p, t, st, tr = sent(v.f[0].f[0]); return ('Task', tuple(v.f[0].f[1].f), p, t, st, tr)
+
+def desugar(t):
+    """spec with derived copulas rewritten into primitive constructors (the documented meaning)"""
+    if not isinstance(t, tuple): return t
+    k = t[0]
+    if k == 'Instance': return ('Inheritance', ('SetExtension', [desugar(t[1])]), desugar(t[2]))
+    if k == 'Property': return ('Inheritance', desugar(t[1]), ('SetIntension', [desugar(t[2])]))
+    if k == 'InstanceProperty': return ('Inheritance', ('SetExtension', [desugar(t[1])]), ('SetIntension', [desugar(t[2])]))
+    if k == 'EquivalenceRetrospective': return ('EquivalencePredictive', desugar(t[2]), desugar(t[1]))
+    out = []
+    for x in t:
+        if isinstance(x, tuple) and x and isinstance(x[0], str) and not (len(x) == 3 and x[0] == 'sym'): out.append(desugar(x))
+        elif isinstance(x, list) and x and isinstance(x[0], tuple): out.append([desugar(y) for y in x])
+        else: out.append(x)
+    return tuple(out)
